@@ -1,8 +1,11 @@
-"""C19 — build-server jobs stay inside their private root.  Proof: Props/C19.lean over Model/Paths.lean (confined_partial + escape witness);
-tie: hook H6 `paths` (real join_suffix + std::path inside sccache-dist) + modeld paths; monitor: lexical resolution of every computed path must
-stay under the build root; adversarial toolchain ids on the real TcCache."""
-import json, os, random, re
+"""C19 — build-server jobs stay inside their private root.  Proof: Props/C19.lean over Model/Paths.lean (confined_all, every_step_inside,
+refused_only_when_leaving for the repaired resolve_inside; confined_partial + the pinned escape witness for join_suffix alone);
+tie: hook H6 `paths` (real join_suffix, std::path and resolve_inside inside sccache-dist, on a real directory) + modeld paths; monitors: whatever
+resolve_inside accepts lies under the build root; crafted jobs against a REAL scheduler + build server (tools/sys_c19.py: host listing and canary
+files); adversarial toolchain ids on the real TcCache."""
+import json, os, random, re, shutil
 from vlib import *
+import sys_c19
 
 PARTS = ['a', 'b', '..', '.', '', 'c.o', 'x y', '...', '..a', 'etc', 'passwd']
 
@@ -32,26 +35,54 @@ def run(ctx):
         w = ctx.work
         pairs = [(mk(rng), mk(rng)) for _ in range(n)]
         open(f'{w}/pairs.txt', 'w').write(''.join(f'{a}\t{b}\n' for a, b in pairs))
-        e = env_offline(); e['SCCACHE_DIST_VERIF'] = f'paths:{w}/pairs.txt:{w}/paths.trace'
+        shutil.rmtree(f'{w}/root', ignore_errors=True); os.makedirs(f'{w}/root')
+        e = env_offline(); e['SCCACHE_DIST_VERIF'] = f'paths:{w}/pairs.txt:{w}/paths.trace:{w}/root'
         rc, out, dt = sh([repo_bin('sccache-dist')], env=e, timeout=3600)
         if rc != 0 or not os.path.exists(f'{w}/paths.trace'): ctx.broken.append('H6 paths driver failed: ' + out[-300:])
         else:
             run_modeld(ctx, 'paths', f'{w}/paths.trace', 'paths')
-            fails = []; escapes = 0; dd = 0; distinct = set()
+            fails = []; lexical_escapes = 0; refused = 0; dd = 0; distinct = set()
             root = resolve('/srv/b/t')
             for l in open(f'{w}/paths.trace'):
                 f = l.rstrip('\n').split('\t')
-                if len(f) < 4: continue
-                cwd, p, joined, js = f[:4]; distinct.add(js)
+                if len(f) < 6: continue
+                cwd, p, joined, js, _parent, inside = f[:6]; distinct.add(js)
                 has_dd = '..' in (cwd + '/' + p).split('/')
                 if has_dd: dd += 1
-                if resolve(js)[:len(root)] != root:
-                    escapes += 1
-                    fails.append({'kind': 'escape', 'detail': f'cwd={cwd!r} path={p!r}: join_suffix gives {js!r}, which resolves outside /srv/b/t' + (' [.. component in cwd or path]' if has_dd else ''), 'ops': [l.rstrip('\n')]})
+                esc = resolve(js)[:len(root)] != root
+                lexical_escapes += esc; refused += inside == 'err'
+                # the statement on the implementation: what the server goes on to use (resolve_inside) is inside the root, and it refuses nothing that stays inside at every step
+                if inside.startswith('OUTSIDE'):
+                    fails.append({'kind': 'escape', 'detail': f'cwd={cwd!r} path={p!r}: resolve_inside returns {inside!r}, outside the build root', 'ops': [l.rstrip('\n')]})
+                elif inside.startswith('ok '):
+                    # independent oracle: walk the components, every prefix must stay at or below the root, the end is the returned path
+                    st = []; left = False
+                    for c in js[len('/srv/b/t'):].split('/'):
+                        if c in ('', '.'): continue
+                        if c == '..':
+                            if not st: left = True; break
+                            st.pop()
+                        else: st.append(c)
+                    if left or '/' + '/'.join(st) != inside[3:]:
+                        fails.append({'kind': 'escape', 'detail': f'cwd={cwd!r} path={p!r}: resolve_inside accepted {inside!r} but the path {"leaves the root on the way" if left else "resolves to /" + "/".join(st)}', 'ops': [l.rstrip('\n')]})
+                elif inside == 'err' and not esc:
+                    st = []; left = False
+                    for c in js[len('/srv/b/t'):].split('/'):
+                        if c in ('', '.'): continue
+                        if c == '..':
+                            if not st: left = True; break
+                            st.pop()
+                        else: st.append(c)
+                    if not left: fails.append({'kind': 'harmless_path_refused', 'detail': f'cwd={cwd!r} path={p!r}: resolve_inside refuses a path that never leaves the root', 'ops': [l.rstrip('\n')]})
             ctx.evaluations += n; ctx.distinct_nontrivial += len(distinct); ctx.samples.append(open(f'{w}/paths.trace').readline().rstrip('\n'))
-            ctx.cov.update(path_pairs=n, pairs_with_dotdot=dd, escapes_observed=escapes)
+            ctx.cov.update(path_pairs=n, pairs_with_dotdot=dd, join_suffix_alone_would_escape=lexical_escapes, refused_by_resolve_inside=refused)
             def rp(fl): return ('monitor-' + fl['kind'], ['cwd<TAB>path<TAB>Path::join<TAB>join_suffix(/srv/b/t, …)<TAB>parent — from the real code (hook H6)', 'observed: ' + fl['detail']], '\n'.join(fl['ops']))
             monitor_failures(ctx, fails[:50], findings, 'join_suffix confinement monitor', rp)
+    if cargo_harness(ctx, ['h_distjob']) and os.path.exists(repo_bin('sccache-dist')):
+        res = sys_c19.run(os.path.join(ctx.work, 'cluster'), 'c19', ctx.seed, 1 if ctx.quick() else 6)
+        ctx.evaluations += res['jobs']; ctx.distinct_nontrivial += res['jobs']; ctx.samples += res['samples'][:1]
+        ctx.cov['real_build_server'] = {k: v for k, v in res.items() if k not in ('fails', 'samples')}
+        monitor_failures(ctx, res['fails'], findings, 'real build server (crafted jobs)', lambda fl: ('server-' + fl['kind'], ['crafted job sent with the real dist::http::Client to a real scheduler + sccache-dist server (tools/sys_c19.py, harness/src/bin/h_distjob.rs); fake bubblewrap = chroot', fl['detail']], '\n'.join(fl['ops'])))
     if cargo_harness(ctx, ['h_tc']):
         rc, out, dt = sh([harness_bin('h_tc'), 'ids'], timeout=600)
         try: res = json.loads(out.strip().splitlines()[-1])
@@ -64,8 +95,10 @@ def run(ctx):
         monitor_failures(ctx, fails, findings, 'toolchain id probe', lambda fl: ('monitor-' + fl['kind'], ['real TcCache (harness/src/bin/h_tc.rs ids)', fl['detail']], '\n'.join(fl['ops'])))
     ctx.rules.append('path pairs built from {a, b, .., ., empty, c.o, "x y", ..., ..a, etc, passwd} with 0-4 components, absolute/relative, doubled and trailing slashes; every pair through the real Path::join and '
                      'join_suffix; 10 adversarial toolchain ids (empty, 1 byte, multi-byte char, absolute, ../, hex)')
-    ctx.assumptions += ["tar's own unpack confinement; the kernel's resolution of .. is the lexical one (no symlinks created by the job: second tier, not modelled)"]
-    ctx.notes.append('cannot run here: bubblewrap / overlayfs (absent) — the sandboxed half of the property is not exercised; partial')
+    ctx.rules.append('real build server: 22 crafted jobs per round (benign, two-job isolation, toolchain alteration, absolute / doubled-slash / .. cwd and outputs, input members with .. / absolute names / symlink then member below / hard link, '
+                     'outputs turned into symlinks to host files by the job or by the inputs archive, toolchain carrying a symlink to a host directory); host listing before/after each job and canary files')
+    ctx.assumptions += ["tar's own unpack confinement (exercised on the real server, not modelled)", "symbolic links: resolve_inside resolves them with the kernel's canonicalize and applies the same starts_with(root) test; the Lean model is the link-free world"]
+    ctx.notes.append('cannot run here: bubblewrap itself (absent; a chroot stand-in runs the jobs) — namespace isolation of the sandboxed process is not exercised; partial')
 
 def replay(ctx, path):
     print(open(path).read()); return 0
